@@ -132,12 +132,8 @@ class UnsignedByteField:
 
     @classmethod
     def from_bytes(cls, raw: bytes):
-        return cls(
-            struct.unpack(IntByteConversion.unsigned_struct_specifier(len(raw)), raw)[
-                0
-            ],
-            len(raw),
-        )
+        UnsignedByteField.verify_byte_len(len(raw))
+        return cls(int.from_bytes(raw, byteorder="big"), len(raw))
 
     @property
     def byte_len(self):
@@ -187,10 +183,7 @@ class UnsignedByteField:
             raise ValueError(
                 f"Passed byte object {val} smaller than byte length {self.byte_len}"
             )
-        int_val = struct.unpack(
-            IntByteConversion.unsigned_struct_specifier(self.byte_len),
-            val[0 : self.byte_len],
-        )[0]
+        int_val = int.from_bytes(val[0 : self.byte_len], byteorder="big")
         self._verify_int_value(int_val)
         return int_val, val[0 : self.byte_len]
 
